@@ -1,0 +1,22 @@
+// Copyright 2022-2026 Sauce Labs Inc., all rights reserved.
+//
+// This Source Code Form is subject to the terms of the Mozilla Public
+// License, v. 2.0. If a copy of the MPL was not distributed with this
+// file, You can obtain one at https://mozilla.org/MPL/2.0/.
+
+//go:build verif
+
+package forwarder
+
+import "net/http"
+
+// VerifC01ModifyRequest runs the request modifier stack this proxy was
+// configured with (middlewareStack: security checks, httpspec stack, user
+// modifiers, setBasicAuth, setEmptyUserAgent) on req, exactly as
+// proxyConn.handle does through Proxy.modifyRequest.  Verification harness only.
+func (hp *HTTPProxy) VerifC01ModifyRequest(req *http.Request) error {
+	if hp.proxy.RequestModifier == nil {
+		return nil
+	}
+	return hp.proxy.RequestModifier.ModifyRequest(req)
+}
